@@ -174,6 +174,15 @@ def flat (cs : List Chunk) : Bytes := (cs.map Chunk.bytes).flatten
 theorem put_wrapper (w : WriteWrapper) (c : Chunk) : put w c = w.writeBytes c.bytes := by
   cases c <;> rfl
 
+theorem writeBytes_of_none {w : WriteWrapper} (h : w.err = none) (s : Bytes) :
+    w.writeBytes s = w.writeBytesOk s := by
+  simp [WriteWrapper.writeBytes, h]
+
+/-- a wrapper that holds an error is poisoned: nothing reaches the sink any more -/
+theorem writeBytes_of_some {w : WriteWrapper} {e : IoErr} (h : w.err = some e) (s : Bytes) :
+    w.writeBytes s = (w, false) := by
+  simp [WriteWrapper.writeBytes, h]
+
 /-- the `String` writer never fails and holds everything -/
 theorem feed_string (b : Bytes) (cs : List Chunk) : feed b cs = (b ++ flat cs, true) := by
   induction cs generalizing b with
@@ -201,7 +210,7 @@ theorem feed_spec (cs : List Chunk) (w : WriteWrapper) (hw : w.err = none) :
   | nil => exact ⟨[], by simp [feed, hw]⟩
   | cons c cs ih =>
     obtain ⟨h1, h2, h3⟩ := writeAll_spec w.script c.bytes
-    simp only [feed, put_wrapper, WriteWrapper.writeBytes]
+    simp only [feed, put_wrapper, writeBytes_of_none hw, WriteWrapper.writeBytesOk]
     cases he : (writeAll w.script c.bytes).err with
     | none =>
       simp only []
@@ -476,15 +485,15 @@ theorem render_spec (ops : List Op) (script : List Beh) :
       | panic => rfl
       | ok x =>
         cases x with
-        | ok u => rfl
-        | error e => simp [WriteWrapper.takeErr, this]
+        | ok u => simp [WriteWrapper.finish, this]
+        | error e => simp [WriteWrapper.finish, WriteWrapper.takeErr, this]
     · right
       obtain ⟨e, herr, _⟩ := f4 hok
       refine ⟨hok, e, herr, ?_⟩
       simp only [renderTo, hres]
       have : (run ops (St.init (⟨script, [], none⟩ : WriteWrapper))).1.out.w.err = some e := by
         rw [hw]; exact herr
-      simp [WriteWrapper.takeErr, this]
+      simp [WriteWrapper.finish, WriteWrapper.takeErr, this]
 
 /-- the facts about a `renderTo` that all theorems below are read off from -/
 theorem render_facts (ops : List Op) (script : List Beh) :
@@ -553,13 +562,13 @@ theorem writeAll_benign (script : List Beh) (buf : Bytes) (h : ∀ b ∈ script,
         simp only [hk, if_true]
         exact ih _ hrest
 
-theorem feed_benign (cs : List Chunk) (w : WriteWrapper) (h : ∀ b ∈ w.script, b.benign = true) :
-    (feed w cs).2 = true := by
+theorem feed_benign (cs : List Chunk) (w : WriteWrapper) (h : ∀ b ∈ w.script, b.benign = true)
+    (hw : w.err = none) : (feed w cs).2 = true := by
   induction cs generalizing w with
   | nil => rfl
   | cons c cs ih =>
     obtain ⟨h1, h2⟩ := writeAll_benign w.script c.bytes h
-    simp only [feed, put_wrapper, WriteWrapper.writeBytes, h1]
-    exact ih _ h2
+    simp only [feed, put_wrapper, writeBytes_of_none hw, WriteWrapper.writeBytesOk, h1]
+    exact ih _ h2 hw
 
 end MJ.Output
